@@ -8,7 +8,7 @@ from .. import gencases as G
 from .. import malformed as M
 from .. import rtfamily as R
 
-SMALL_TYPES = ["u8", "i8", "u16", "bool", "char", "str", "dstr", "bytes", "dur", "bigint", "uuid", "i32"]
+SMALL_TYPES = ["u8", "i8", "u16", "bool", "char", "str", "dstr", "bytes", "dur", "bigint", "bigdec", "uuid", "i32"]
 F14 = "sequence of zero-width elements loops `count` times without consuming input (Vec<()> / LinkedList<PhantomData>): 5 input bytes, 2^31-1 iterations"
 F27 = ("decoding a recursive derived type recurses once per nesting level with ~700 bytes of stack each: an 18 KB input "
        "nested 3000 deep aborts the process (stack overflow) on a default-stack thread")
